@@ -754,3 +754,165 @@ func BigPacket(r *core.Rand) rtcp.Packet {
 		return x
 	}
 }
+
+// EditLists changes, in place, the shape of one list of p (append a fresh element, drop the last
+// one, swap two, empty it) so that a value that has already been used (marshalled, printed) is
+// no longer what it was: anything the library remembered about the old shape is now stale. The
+// result stays inside D. It reports whether an edit was made.
+func EditLists(r *core.Rand, p rtcp.Packet) bool {
+	op := r.Intn(4) // 0 grow, 1 shrink, 2 swap, 3 empty
+	switch v := p.(type) {
+	case *rtcp.SenderReport:
+		v.Reports = editReports(r, v.Reports, op)
+		return true
+	case *rtcp.ReceiverReport:
+		v.Reports = editReports(r, v.Reports, op)
+		return true
+	case *rtcp.Goodbye:
+		switch {
+		case op == 0 && len(v.Sources) < 31:
+			v.Sources = append(v.Sources[:len(v.Sources):len(v.Sources)], r.B32())
+		case op == 1 && len(v.Sources) > 0:
+			v.Sources = v.Sources[:len(v.Sources)-1]
+		case op == 2 && len(v.Sources) > 1:
+			v.Sources[0], v.Sources[len(v.Sources)-1] = v.Sources[len(v.Sources)-1], v.Sources[0]
+		default:
+			v.Reason = Text(r)
+		}
+		return true
+	case *rtcp.SourceDescription:
+		switch {
+		case op == 0 && len(v.Chunks) < 31:
+			v.Chunks = append(v.Chunks[:len(v.Chunks):len(v.Chunks)], rtcp.SourceDescriptionChunk{Source: r.B32(), Items: []rtcp.SourceDescriptionItem{{Type: rtcp.SDESType(1 + r.Intn(8)), Text: Text(r)}}})
+		case op == 1 && len(v.Chunks) > 0:
+			v.Chunks = v.Chunks[:len(v.Chunks)-1]
+		case len(v.Chunks) > 0:
+			c := &v.Chunks[r.Intn(len(v.Chunks))]
+			if len(c.Items) > 0 && op == 2 {
+				c.Items = c.Items[:len(c.Items)-1]
+			} else {
+				c.Items = append(c.Items[:len(c.Items):len(c.Items)], rtcp.SourceDescriptionItem{Type: rtcp.SDESType(1 + r.Intn(8)), Text: Text(r)})
+			}
+		default:
+			return false
+		}
+		return true
+	case *rtcp.TransportLayerNack:
+		switch {
+		case op == 1 && len(v.Nacks) > 1:
+			v.Nacks = v.Nacks[:len(v.Nacks)-1]
+		case op == 2 && len(v.Nacks) > 1:
+			v.Nacks[0], v.Nacks[len(v.Nacks)-1] = v.Nacks[len(v.Nacks)-1], v.Nacks[0]
+		case len(v.Nacks) < 200:
+			v.Nacks = append(v.Nacks[:len(v.Nacks):len(v.Nacks)], rtcp.NackPair{PacketID: r.B16(), LostPackets: rtcp.PacketBitmap(r.B16())})
+		}
+		return true
+	case *rtcp.SliceLossIndication:
+		switch {
+		case op == 1 && len(v.SLI) > 1:
+			v.SLI = v.SLI[:len(v.SLI)-1]
+		case len(v.SLI) < 200:
+			v.SLI = append(v.SLI[:len(v.SLI):len(v.SLI)], rtcp.SLIEntry{First: r.U16() & 0x1FFF, Number: r.U16() & 0x1FFF, Picture: r.U8() & 0x3F})
+		}
+		return true
+	case *rtcp.FullIntraRequest:
+		switch {
+		case op == 1 && len(v.FIR) > 1:
+			v.FIR = v.FIR[:len(v.FIR)-1]
+		case len(v.FIR) < 200:
+			v.FIR = append(v.FIR[:len(v.FIR):len(v.FIR)], rtcp.FIREntry{SSRC: r.B32(), SequenceNumber: r.U8()})
+		}
+		return true
+	case *rtcp.ReceiverEstimatedMaximumBitrate:
+		switch {
+		case op == 1 && len(v.SSRCs) > 0:
+			v.SSRCs = v.SSRCs[:len(v.SSRCs)-1]
+		case op == 3:
+			v.SSRCs = nil
+		case len(v.SSRCs) < 200:
+			v.SSRCs = append(v.SSRCs[:len(v.SSRCs):len(v.SSRCs)], r.B32())
+		}
+		return true
+	case *rtcp.ApplicationDefined:
+		if op == 1 && len(v.Data) >= 4 {
+			v.Data = v.Data[:len(v.Data)-4]
+		} else {
+			v.Data = append(v.Data[:len(v.Data):len(v.Data)], r.Bytes(4)...)
+		}
+		return true
+	case *rtcp.ExtendedReport:
+		switch {
+		case op == 0 && len(v.Reports) < 8:
+			v.Reports = append(v.Reports[:len(v.Reports):len(v.Reports)], XRBlock(r, XRKind(r.Intn(int(NumXRKinds))), false))
+		case op == 1 && len(v.Reports) > 0:
+			v.Reports = v.Reports[:len(v.Reports)-1]
+		case len(v.Reports) > 0:
+			// edit inside one block: its derived header fields (if already filled in) are now stale
+			switch b := v.Reports[r.Intn(len(v.Reports))].(type) {
+			case *rtcp.LossRLEReportBlock:
+				b.Chunks = append(b.Chunks[:len(b.Chunks):len(b.Chunks)], xrChunk(r), xrChunk(r))
+				b.T = uint8(r.Intn(16))
+			case *rtcp.DuplicateRLEReportBlock:
+				if len(b.Chunks) >= 2 {
+					b.Chunks = b.Chunks[:len(b.Chunks)-2]
+				}
+				b.T = uint8(r.Intn(16))
+			case *rtcp.PacketReceiptTimesReportBlock:
+				b.ReceiptTime = append(b.ReceiptTime[:len(b.ReceiptTime):len(b.ReceiptTime)], r.U32())
+				b.T = uint8(r.Intn(16))
+			case *rtcp.DLRRReportBlock:
+				if op == 2 && len(b.Reports) > 0 {
+					b.Reports = b.Reports[:len(b.Reports)-1]
+				} else {
+					b.Reports = append(b.Reports[:len(b.Reports):len(b.Reports)], rtcp.DLRRReport{SSRC: r.B32(), LastRR: r.U32(), DLRR: r.U32()})
+				}
+			case *rtcp.StatisticsSummaryReportBlock:
+				b.LossReports, b.DuplicateReports, b.JitterReports = r.Bool(), r.Bool(), r.Bool()
+				b.TTLorHopLimit = rtcp.TTLorHopLimitType(r.Intn(3))
+			case *rtcp.UnknownReportBlock:
+				b.Bytes = append(b.Bytes[:len(b.Bytes):len(b.Bytes)], r.Bytes(4)...)
+			default:
+				return false
+			}
+		default:
+			return false
+		}
+		return true
+	case *rtcp.CCFeedbackReport:
+		switch {
+		case op == 0 && len(v.ReportBlocks) < 6:
+			v.ReportBlocks = append(v.ReportBlocks[:len(v.ReportBlocks):len(v.ReportBlocks)], rtcp.CCFeedbackReportBlock{MediaSSRC: r.B32(), BeginSequence: uint16(r.Intn(30000))})
+		case op == 1 && len(v.ReportBlocks) > 0:
+			v.ReportBlocks = v.ReportBlocks[:len(v.ReportBlocks)-1]
+		default:
+			return false
+		}
+		return true
+	case *rtcp.CompoundPacket:
+		if _, lastIsSDES := (*v)[len(*v)-1].(*rtcp.SourceDescription); len(*v) > 2 && op == 1 && !lastIsSDES {
+			*v = (*v)[:len(*v)-1]
+			return true
+		}
+		for _, m := range *v {
+			if _, isSDES := m.(*rtcp.SourceDescription); !isSDES && EditLists(r, m) {
+				return true
+			}
+		}
+	}
+	return false
+}
+
+func editReports(r *core.Rand, rs []rtcp.ReceptionReport, op int) []rtcp.ReceptionReport {
+	switch {
+	case op == 0 && len(rs) < 31:
+		return append(rs[:len(rs):len(rs)], Report(r))
+	case op == 1 && len(rs) > 0:
+		return rs[:len(rs)-1]
+	case op == 2 && len(rs) > 1:
+		rs[0], rs[len(rs)-1] = rs[len(rs)-1], rs[0]
+		return rs
+	case op == 3:
+		return nil
+	}
+	return rs
+}
